@@ -209,7 +209,17 @@ def _run_server(case, bits, other, mode, coroutine, w):
     def plan(label, args, evt):
         if label[3] == 'connect' or (label[3] == '*' and False):
             return [('ret', None)]
+        if label[3] == '*' and 'lazy-ev' in args[:2] and \
+                not lazy_done:
+            # a catch-all that registers the real handler the first time it
+            # sees an event (from inside itself)
+            lazy_done.append(1)
+            return [('do', lambda: srv.on(
+                'lazy-ev', w.make_handler(('s', 'func', ns, 'lazy-ev'), plan,
+                                          coroutine), namespace=ns)),
+                    ('ret', 'R')]
         return _raise_plan(case, args) or [('ret', 'R')]
+    lazy_done = []
     _register(w, srv, 's', bits, other, ns, [ev, 'connect', 'disconnect'],
               plan, coroutine, client=False)
     peer = w.add_peer('s')
@@ -251,6 +261,19 @@ def _run_server(case, bits, other, mode, coroutine, w):
         w.rec.count('fault.handler_raise')
         _check(v, w, n0, 'raising-target', tgt, ns, ev, 's',
                [sid] + wire_norm(case['args']) + [RAISE])
+    if bits & (2 | 8):
+        # lazy registration from inside the catch-all, then the event again
+        t_first = ('func', 'NS', '*', ['event']) if bits & 2 else \
+            ('func', '*', '*', ['event', 'ns'])
+        n0 = len(w.rec.events)
+        peer.send_pkt(sio.EVENT, ns, None, ['lazy-ev', 1])
+        w.settle()
+        _check(v, w, n0, 'lazy-first', t_first, ns, 'lazy-ev', 's', [sid, 1])
+        n0 = len(w.rec.events)
+        peer.send_pkt(sio.EVENT, ns, None, ['lazy-ev', 2])
+        w.settle()
+        _check(v, w, n0, 'lazy-second', ('func', 'NS', 'EV', []), ns,
+               'lazy-ev', 's', [sid, 2])
     # an event nobody registered anywhere: dropped unless a catch-all exists
     n0 = len(w.rec.events)
     peer.send_pkt(sio.EVENT, ns, None, ['nobody-handles-this', 1])
